@@ -191,6 +191,121 @@ Proof.
     cbn [sem]. rewrite !schema_pfd, (IHl Ul OKl), (IHr Ur OKr). reflexivity.
 Qed.
 
+(** ** the proposed repair of C09-K1 ([try_push_fix]/[pfd_fix], Opt.v) *)
+Lemma schema_try_push_fix : forall e op, schema (try_push_fix e op) = schema op.
+Proof.
+  intros e op; induction op; cbn [try_push_fix schema]; try reflexivity.
+  - destruct (uses_any _ _); cbn [schema]; [reflexivity|]. rewrite IHop. reflexivity.
+  - destruct (all_passed _ _); reflexivity.
+  - destruct (all_passed _ _); reflexivity.
+  - destruct (_ && _); cbn [schema]; [rewrite IHop1; reflexivity|].
+    destruct (_ && _); cbn [schema]; [rewrite IHop2; reflexivity|reflexivity].
+Qed.
+
+Lemma schema_pfd_fix : forall p, schema (pfd_fix p) = schema p.
+Proof.
+  induction p; cbn [pfd_fix schema]; try reflexivity; try congruence.
+  rewrite schema_try_push_fix. exact IHp.
+Qed.
+
+Lemma uniform_try_push_fix : forall e op, uniform op = true -> uniform (try_push_fix e op) = true.
+Proof.
+  intros e op; induction op; cbn [try_push_fix uniform]; intros U; try exact U.
+  - destruct (uses_any _ _); cbn [uniform]; auto.
+  - destruct (all_passed _ _); cbn [uniform]; auto.
+  - destruct (all_passed _ _); cbn [uniform]; auto.
+  - apply andb_true_iff in U as [U1 U2].
+    destruct (_ && _); cbn [uniform]; [rewrite IHop1, U2 by assumption; reflexivity|].
+    destruct (_ && _); cbn [uniform]; [rewrite IHop2, U1 by assumption; reflexivity|].
+    rewrite U1, U2; reflexivity.
+Qed.
+
+Lemma uniform_pfd_fix : forall p, uniform p = true -> uniform (pfd_fix p) = true.
+Proof.
+  induction p; cbn [pfd_fix uniform]; intros U; auto.
+  - apply uniform_try_push_fix; auto.
+  - apply andb_true_iff in U as [U1 U2]. rewrite IHp1, IHp2 by assumption. reflexivity.
+Qed.
+
+Lemma try_push_fix_sound : forall G e op,
+  uniform op = true -> try_push_fix_ok e op = true ->
+  sem G (try_push_fix e op) = filter (passes G e) (sem G op).
+Proof.
+  intros G e op; induction op as
+    [|x l|x l inp IH|f t ev d ty inp IH|e0 inp IH|items inp IH|items dd inp IH|k cs pl IHl pr IHr
+     |pl IHl pr IHr|gs ags inp IH|ks inp IH|n inp IH|n inp IH|inp IH|a IHa b IHb];
+    cbn [try_push_fix try_push_fix_ok uniform]; intros U OK; try reflexivity.
+  - (* Expand *)
+    destruct (uses_any (expr_vars e) (t :: match ev with Some e1 => [e1] | None => [] end)) eqn:UA;
+      [reflexivity|].
+    cbn [sem]. rewrite (IH U OK). symmetry. apply filter_flat_map_comm.
+    intros r Hr r' Hr'. unfold expand_row in Hr'.
+    destruct (lookup f r) as [[| | | |s|]|]; try destruct Hr'.
+    apply in_map_iff in Hr' as (et & <- & _). apply passes_ext. intros v Hv.
+    pose proof (uses_any_false _ _ UA v Hv) as Hm.
+    rewrite lookup_app. destruct (lookup v r) as [x|]; [reflexivity|].
+    apply lookup_not_key. rewrite keys_app. cbn [mem] in Hm. apply orb_false_iff in Hm as [Ht Hev].
+    rewrite mem_app. destruct ev as [e1|]; cbn [keys map fst mem app] in *; rewrite ?Ht, ?Hev; reflexivity.
+  - (* Project *)
+    destruct (all_passed (expr_vars e) items); [|reflexivity].
+    apply andb_true_iff in OK as [T OK]. cbn [sem]. rewrite (IH U OK). symmetry.
+    apply filter_map_comm. intros r Hr. eapply passes_project_through; eauto.
+  - (* Return *)
+    destruct (all_passed (expr_vars e) items); [|reflexivity].
+    apply andb_true_iff in OK as [T OK]. cbn [sem]. rewrite (IH U OK). symmetry.
+    apply filter_map_comm. intros r Hr. eapply passes_project_through; eauto.
+  - (* Join *)
+    apply andb_true_iff in U as [Ul Ur].
+    destruct (uses_any (expr_vars e) (out_vars_fix pl) && negb (uses_any (expr_vars e) (out_vars_fix pr))).
+    + (* into the left input *)
+      apply andb_true_iff in OK as [D OK]. cbn [sem]. rewrite schema_try_push_fix, (IHl Ul OK).
+      unfold join_rows. symmetry. apply filter_flat_map_comm.
+      intros a Ha r' Hr'.
+      set (ms := filter (fun b => forallb (cond_holds (schema pl) (schema pr) a b) cs) (sem G pr)) in *.
+      assert (forall x, keys x = schema pr -> passes G e (a ++ x) = passes G e a) as Hx.
+      { intros x Kx. apply passes_ext. intros v Hv. rewrite lookup_app.
+        destruct (lookup v a); [reflexivity|]. apply lookup_not_key. rewrite Kx.
+        eapply disjointb_true; eauto. }
+      assert (In r' (map (fun b => a ++ b) ms) -> passes G e r' = passes G e a) as Hgen.
+      { intros H. apply in_map_iff in H as (b & <- & Hb). apply Hx.
+        apply filter_In in Hb as [Hb _]. apply (keys_sem G pr Ur _ Hb). }
+      destruct k; try (apply Hgen; exact Hr').
+      destruct ms as [|m ms']; [|apply Hgen; exact Hr'].
+      destruct Hr' as [<-|[]]. apply Hx, keys_null_row.
+    + destruct (uses_any (expr_vars e) (out_vars_fix pr) && negb (uses_any (expr_vars e) (out_vars_fix pl))
+                && match k with JLeft => false | _ => true end) eqn:RP; [|reflexivity].
+      (* into the right input *)
+      apply andb_true_iff in RP as [_ NL].
+      apply andb_true_iff in OK as [D OKr].
+      cbn [sem]. rewrite schema_try_push_fix, (IHr Ur OKr).
+      assert (forall a, In a (sem G pl) -> forall b, passes G e (a ++ b) = passes G e b) as Hx.
+      { intros a Ha b. apply passes_ext. intros v Hv. rewrite lookup_app.
+        rewrite (lookup_not_in_schema G pl a v Ul Ha); [reflexivity|]. eapply disjointb_true; eauto. }
+      unfold join_rows. rewrite filter_flat_map. apply flat_map_ext_in. intros a Ha.
+      assert (map (fun b => a ++ b)
+                  (filter (fun b => forallb (cond_holds (schema pl) (schema pr) a b) cs)
+                          (filter (passes G e) (sem G pr)))
+              = filter (passes G e)
+                       (map (fun b => a ++ b)
+                            (filter (fun b => forallb (cond_holds (schema pl) (schema pr) a b) cs) (sem G pr))))
+        as E.
+      { rewrite filter_filter_comm. symmetry. apply filter_map_comm. intros b _. apply Hx, Ha. }
+      destruct k; try exact E. discriminate NL.
+Qed.
+
+Theorem pfd_fix_sound : forall G p, uniform p = true -> pfd_fix_ok p = true -> sem G (pfd_fix p) = sem G p.
+Proof.
+  intros G p; induction p as
+    [|x l|x l inp IH|f t ev d ty inp IH|e0 inp IH|items inp IH|items dd inp IH|k cs pl IHl pr IHr
+     |pl IHl pr IHr|gs ags inp IH|ks inp IH|n inp IH|n inp IH|inp IH|a IHa b IHb];
+    cbn [pfd_fix pfd_fix_ok uniform]; intros U OK; try reflexivity;
+    try (cbn [sem]; rewrite (IH U OK); reflexivity).
+  - apply andb_true_iff in OK as [OK1 OK2].
+    rewrite try_push_fix_sound by (auto using uniform_pfd_fix). cbn [sem]. rewrite (IH U OK1). reflexivity.
+  - apply andb_true_iff in U as [Ul Ur]. apply andb_true_iff in OK as [OKl OKr].
+    cbn [sem]. rewrite !schema_pfd_fix, (IHl Ul OKl), (IHr Ur OKr). reflexivity.
+Qed.
+
 (** ** projection push-down rebuilds the tree it is given *)
 Lemma ppd_rec_id : forall p req, ppd_rec p req = p.
 Proof.
